@@ -94,6 +94,12 @@ func (r *richRuntime) CheckTx(
 	case len(resp.RuntimeCheckTxBatchResponse.Results) != len(batch):
 		return nil, errors.WithContext(ErrInternal, "malformed runtime response: incorrect number of results")
 	}
+	for i := range resp.RuntimeCheckTxBatchResponse.Results {
+		// Successful results must carry the metadata that is needed for scheduling.
+		if res := &resp.RuntimeCheckTxBatchResponse.Results[i]; res.IsSuccess() && res.Meta == nil {
+			return nil, errors.WithContext(ErrInternal, "malformed runtime response: missing transaction metadata")
+		}
+	}
 	return resp.RuntimeCheckTxBatchResponse.Results, nil
 }
 
